@@ -30,9 +30,9 @@ Definition kb_required (claims : json) : bool := negb (is_null (jget "cnf" claim
    without its last segment. *)
 Theorem verifier_verify_raw_iff O token kbpol hdr claims ds :
   verifier_verify_raw O token kbpol = Val (hdr, claims, ds) <->
-  exists jwt kb a alg,
+  exists jwt kb alg,
     sd_jwt_parts token = (jwt, ds, kb) /\ o_jwt O jwt = Val (hdr, claims) /\
-    jget "_sd_alg" claims = JStr a /\ parse_halg a = Some alg /\
+    declared_halg claims = Some alg /\
     ( (kb_required claims = false /\ kb = None) \/
       (kb_required claims = true /\ exists k h' kc hs,
           kb = Some k /\ kbpol = true /\ verify_kb O k (jget "cnf" claims) = Val (h', kc) /\
@@ -44,24 +44,22 @@ Proof.
   - destruct (o_jwt O jwt) as [[h c]| |] eqn:Ej; cbn [obind]; try discriminate.
     destruct (is_null (jget "cnf" c)) eqn:En; destruct kb as [k|]; cbn [andb negb]; try discriminate.
     + (* unbound, no KB *)
-      destruct (jget "_sd_alg" c) as [| | |a| |] eqn:Ea; try discriminate.
-      destruct (parse_halg a) as [alg|] eqn:Eh; try discriminate. cbn [obind].
-      intros Hq. injection Hq as <- <- <-. exists jwt, None, a, alg. repeat split; try assumption. left. split; [rewrite En; reflexivity|reflexivity].
+      destruct (declared_halg c) as [alg|] eqn:Eh; try discriminate. cbn [obind].
+      intros Hq. injection Hq as <- <- <-. exists jwt, None, alg. repeat split; try assumption. left. split; [rewrite En; reflexivity|reflexivity].
     + (* bound, KB attached *)
-      destruct (jget "_sd_alg" c) as [| | |a| |] eqn:Ea; try discriminate.
-      destruct (parse_halg a) as [alg|] eqn:Eh; try discriminate.
+      destruct (declared_halg c) as [alg|] eqn:Eh; try discriminate.
       destruct kbpol; cbn [negb]; [|discriminate].
       destruct (verify_kb O k (jget "cnf" c)) as [[h' kc]| |] eqn:Ev; cbn [obind]; try discriminate.
       cbn [snd]. destruct (jget "sd_hash" kc) as [| | |hs| |] eqn:Es; try discriminate.
       rewrite drop_kb_m_total. cbn [obind].
       destruct (String.eqb_spec (o_hash O alg (drop_kb token)) hs) as [Hh|]; [|discriminate]. cbn [obind].
-      intros Hq. injection Hq as <- <- <-. exists jwt, (Some k), a, alg. repeat split; try assumption.
+      intros Hq. injection Hq as <- <- <-. exists jwt, (Some k), alg. repeat split; try assumption.
       right. split; [rewrite En; reflexivity|]. exists k, h', kc, hs. repeat split; assumption.
-  - intros (jwt' & kb' & a & alg & Hp & Hj & Ha & Hh & Hcase). injection Hp as <- <- <-.
+  - intros (jwt' & kb' & alg & Hp & Hj & Hh & Hcase). injection Hp as <- <- <-.
     rewrite Hj. cbn [obind].
     destruct Hcase as [[Hn ->] | [Hn (k & h' & kc & hs & -> & -> & Hv & Hs & Hq)]].
-    + apply negb_false_iff in Hn. rewrite Hn. cbn [andb negb]. rewrite Ha, Hh. reflexivity.
-    + apply negb_true_iff in Hn. rewrite Hn. cbn [andb negb]. rewrite Ha, Hh. cbn [negb]. rewrite Hv. cbn [obind snd].
+    + apply negb_false_iff in Hn. rewrite Hn. cbn [andb negb]. rewrite Hh. reflexivity.
+    + apply negb_true_iff in Hn. rewrite Hn. cbn [andb negb]. rewrite Hh. cbn [negb]. rewrite Hv. cbn [obind snd].
       rewrite Hs, drop_kb_m_total. cbn [obind]. rewrite Hq, String.eqb_refl. reflexivity.
 Qed.
 
@@ -70,7 +68,7 @@ Corollary bound_without_kb_rejected O token kbpol jwt ds hdr claims :
   sd_jwt_parts token = (jwt, ds, None) -> o_jwt O jwt = Val (hdr, claims) -> kb_required claims = true ->
   forall r, verifier_verify_raw O token kbpol <> Val r.
 Proof.
-  intros Hp Hj Hb [[h c] d] Hv. apply verifier_verify_raw_iff in Hv as (jwt' & kb & a & alg & Hp' & Hj' & _ & _ & Hc).
+  intros Hp Hj Hb [[h c] d] Hv. apply verifier_verify_raw_iff in Hv as (jwt' & kb & alg & Hp' & Hj' & _ & Hc).
   rewrite Hp in Hp'. injection Hp' as <- _ <-. rewrite Hj in Hj'. injection Hj' as <- <-.
   destruct Hc as [[Hn _]|[_ (k & ? & ? & ? & Hk & _)]]; congruence.
 Qed.
@@ -79,7 +77,7 @@ Corollary kb_on_unbound_rejected O token kbpol jwt ds k hdr claims :
   sd_jwt_parts token = (jwt, ds, Some k) -> o_jwt O jwt = Val (hdr, claims) -> kb_required claims = false ->
   forall r, verifier_verify_raw O token kbpol <> Val r.
 Proof.
-  intros Hp Hj Hb [[h c] d] Hv. apply verifier_verify_raw_iff in Hv as (jwt' & kb & a & alg & Hp' & Hj' & _ & _ & Hc).
+  intros Hp Hj Hb [[h c] d] Hv. apply verifier_verify_raw_iff in Hv as (jwt' & kb & alg & Hp' & Hj' & _ & Hc).
   rewrite Hp in Hp'. injection Hp' as <- _ <-. rewrite Hj in Hj'. injection Hj' as <- <-.
   destruct Hc as [[_ Hn]|[Hn _]]; congruence.
 Qed.
@@ -88,7 +86,7 @@ Corollary no_policy_rejected O token jwt ds k hdr claims :
   sd_jwt_parts token = (jwt, ds, Some k) -> o_jwt O jwt = Val (hdr, claims) ->
   forall r, verifier_verify_raw O token false <> Val r.
 Proof.
-  intros Hp Hj [[h c] d] Hv. apply verifier_verify_raw_iff in Hv as (jwt' & kb & a & alg & Hp' & _ & _ & _ & Hc).
+  intros Hp Hj [[h c] d] Hv. apply verifier_verify_raw_iff in Hv as (jwt' & kb & alg & Hp' & _ & _ & Hc).
   rewrite Hp in Hp'. injection Hp' as <- _ <-.
   destruct Hc as [[_ Hn]|[_ (k' & ? & ? & ? & _ & Hf & _)]]; congruence.
 Qed.
@@ -97,11 +95,11 @@ Qed.
    injective hash any other presentation prefix is rejected with that KB-JWT *)
 Corollary accepted_commits O token kbpol hdr claims ds jwt k :
   verifier_verify_raw O token kbpol = Val (hdr, claims, ds) -> sd_jwt_parts token = (jwt, ds, Some k) ->
-  exists h' kc a alg, verify_kb O k (jget "cnf" claims) = Val (h', kc) /\ jget "_sd_alg" claims = JStr a /\
-     parse_halg a = Some alg /\ jget "sd_hash" kc = JStr (o_hash O alg (drop_kb token)).
+  exists h' kc alg, verify_kb O k (jget "cnf" claims) = Val (h', kc) /\
+     declared_halg claims = Some alg /\ jget "sd_hash" kc = JStr (o_hash O alg (drop_kb token)).
 Proof.
-  intros Hv Hp. apply verifier_verify_raw_iff in Hv as (jwt' & kb & a & alg & Hp' & _ & Ha & Hh & Hc).
+  intros Hv Hp. apply verifier_verify_raw_iff in Hv as (jwt' & kb & alg & Hp' & _ & Hh & Hc).
   rewrite Hp in Hp'. injection Hp' as <- <-.
   destruct Hc as [[_ Hn]|[_ (k' & h' & kc & hs & Hk & _ & Hv & Hs & Hq)]]; [discriminate|].
-  injection Hk as <-. exists h', kc, a, alg. subst hs. repeat split; assumption.
+  injection Hk as <-. exists h', kc, alg. subst hs. repeat split; assumption.
 Qed.
